@@ -37,17 +37,19 @@ class FactoryError(Exception):
 class Rig:
     """One decorated function + callbacks for (sig, req)."""
 
-    def __init__(self, sig, req):
+    def __init__(self, sig, req, dreq=None):
         import icontract
 
         self.sig = sig
         self.req = req
+        self.dreq = dreq or {}
+        self.cbdef = Obj("CALLBACK-DEFAULT")
         self.log = []
         self.mode = "A"
         self.result = Obj("RESULT")
         self.cap_token = Obj("CAP")
         self.err_obj = None
-        g = {"BODY": self._body, "CB": self._cb}
+        g = {"BODY": self._body, "CB": self._cb, "CBDEF": self.cbdef}
         self.defaults = {}
         for i, n in enumerate(sig["dflt"]):
             # every other default is None (the most common default, and a value implementations like to test for)
@@ -55,7 +57,8 @@ class Rig:
             g["D_" + n] = self.defaults[n]
         src = ["def f(%s):\n    return BODY(locals())\n" % sigmodel.render_params(sig)]
         for role in ("pre", "cap", "post", "errpre", "errpost"):
-            names = list(req[role])
+            dn = set(self.dreq.get(role, []))
+            names = [n for n in req[role] if n not in dn] + ["%s=CBDEF" % n for n in req[role] if n in dn]
             src.append("def %s(%s):\n    return CB(%r, locals())\n" % (role, ", ".join(names), role))
         exec(compile("\n".join(src), "<c05rig>", "exec"), g)
         self.bare = g["f"]
@@ -86,13 +89,13 @@ class _Bound:
         self.arguments = arguments
 
 
-def get_rig(sig, req):
-    key = core.h64([sig, req])
+def get_rig(sig, req, dreq=None):
+    key = core.h64([sig, req, dreq])
     rig = _cache.get(key)
     if rig is None:
         if len(_cache) > 4000:
             _cache.clear()
-        rig = _cache[key] = Rig(sig, req)
+        rig = _cache[key] = Rig(sig, req, dreq)
     return rig
 
 
@@ -110,6 +113,12 @@ def req_variants(sig):
     out.append({"pre": od + ["_ARGS"], "cap": ev + ["_ARGS"], "post": od + ["result"], "errpre": ev + ["_KWARGS"],
                 "errpost": ev + ["OLD", "_ARGS"]})
     return out
+
+
+def dreq_variants(req):
+    """Which requested names carry a default value in the callback's own signature (none / every second / all)."""
+    return [None, {r: [n for n in v if n not in ("result", "OLD")][1::2] for r, v in req.items()},
+            {r: [n for n in v if n not in ("result", "OLD")] for r, v in req.items()}]
 
 
 MISSING_VARIANTS = ("pre", "cap", "post", "errpre", "errpost")
@@ -132,7 +141,8 @@ def expected_value(name, sig, bound, args, kwargs, rig):
 
 def run_case(ctx, case):
     sig, shape, req, mode = case["sig"], case["shape"], case["req"], case["mode"]
-    rig = get_rig(sig, req)
+    dreq = case.get("dreq") or {}
+    rig = get_rig(sig, req, dreq)
     args, kwargs = sigmodel.make_call(sig, shape)
     # what the body receives: call the bare function with the very same objects
     rig.log = []
@@ -156,6 +166,13 @@ def run_case(ctx, case):
     def stage_missing(role):
         return [n for n in req[role] if n not in ("result", "OLD") and
                 expected_value(n, sig, bound, args, kwargs, rig) == ("missing",)]
+
+    # a name the call does not supply but for which the callback declares its own default: the statement does not say
+    # whether the default is used or the call fails (conditions use it, captures fail) -> not judged
+    for role in req:
+        if any(n in (dreq.get(role) or []) for n in stage_missing(role)):
+            ctx.count("skipped:unsupplied-name-with-callback-default")
+            return feats
 
     expect_roles = []  # roles whose callback must have been called, in order
     expect_exc = None  # None | ("TypeError", names) | ("factory", role)
@@ -260,6 +277,11 @@ def run_case(ctx, case):
                     fail("OLD-identity", "%s got OLD without the captured token" % role, n)
                 continue
             kind = expected_value(n, sig, bound, args, kwargs, rig)
+            if kind[0] == "missing":
+                # only possible for a parameter of the callback that has its own default
+                if got is not rig.cbdef:
+                    fail("callback-default", "%s received %s=%r for a name the call does not supply" % (role, n, got), n)
+                continue
             if kind[0] == "val":
                 if got is not kind[1]:
                     fail("named-identity", "%s received %s=%r, the body receives %r" % (role, n, got, kind[1]), n)
@@ -312,6 +334,7 @@ KNOWN = {
 
 def replay(ctx, case):
     c = {k: case[k] for k in ("sig", "shape", "req", "mode")}
+    c["dreq"] = case.get("dreq")
     run_case(ctx, c)
     ctx.evaluations += 1
 
@@ -331,8 +354,9 @@ def run(ctx, tier, seed, shard, nshards):
             variants = req_variants(sig)
             for shape in sigmodel.enumerate_shapes(sig):
                 for vi, req in enumerate(variants):
-                    for mode in modes:
-                        do_case(ctx, {"sig": sig, "shape": shape, "req": req, "mode": mode})
+                    for dreq in (dreq_variants(req) if vi == 0 else dreq_variants(req)[:2]):
+                        for mode in modes:
+                            do_case(ctx, {"sig": sig, "shape": shape, "req": req, "dreq": dreq, "mode": mode})
                 # one nobody-supplies-it name in each callback in turn
                 for role in MISSING_VARIANTS:
                     req = {r: list(v) for r, v in variants[1].items()}
@@ -361,7 +385,10 @@ def run(ctx, tier, seed, shard, nshards):
             if draw(st.integers(0, 9)) == 0:
                 chosen.append("nobody")
             req[role] = chosen
-        return {"sig": sig, "shape": shape, "req": req, "mode": draw(st.sampled_from(modes))}
+        dreq = None
+        if draw(st.booleans()):
+            dreq = {r: [n for n in v if n not in ("result", "OLD") and draw(st.booleans())] for r, v in req.items()}
+        return {"sig": sig, "shape": shape, "req": req, "dreq": dreq, "mode": draw(st.sampled_from(modes))}
 
     @given(st_case())
     def test(case):
